@@ -234,3 +234,76 @@ def coordsys_forwarding(run, rule, modules=None, only_callers=None):
             else:
                 run.holds(rule, f, e.node, "%s hands its coordinate system to %s" % (f.short, g.short))
     return n
+
+
+# ---------------------------------------------------------------------------------------------------------------------
+# The `mid` that the Python subdivision calls is the compiled great-circle midpoint - the routine the compiled pixel-grid
+# recursion (`subsample`) uses itself.  A Python definition standing in for it must hand every pair of points to the
+# compiled routine unchanged; a path that answers differently makes Python tiles and compiled grids / bounding boxes
+# (and the children of a tile versus the tile) disagree for the arcs that take it.
+
+def compiled_midpoint(run, rule):
+    import ast
+    project = run.project
+    mod = project.mod(T)
+    if mod is None:
+        run.undecided(rule, None, None, "toasty.toast not found", kind="anchor", construct="toasty.toast")
+        return
+    compiled = {}      # local alias -> compiled name
+    pydefs = {}
+    rebinds = []
+    for st in mod.tree.body:
+        if isinstance(st, ast.ImportFrom) and (st.module or "").endswith("_libtoasty"):
+            for a in st.names:
+                compiled[a.asname or a.name] = a.name
+        elif isinstance(st, ast.FunctionDef) and st.name in ("mid", "subsample"):
+            pydefs[st.name] = st
+        elif isinstance(st, ast.Assign):
+            for t in st.targets:
+                if isinstance(t, ast.Name) and t.id in ("mid", "subsample"):
+                    rebinds.append((t.id, st))
+        elif isinstance(st, ast.Try):
+            for x in ast.walk(st):
+                if isinstance(x, ast.ImportFrom) and (x.module or "").endswith("_libtoasty"):
+                    for a in x.names:
+                        compiled.setdefault(a.asname or a.name, a.name)
+                if isinstance(x, ast.FunctionDef) and x.name in ("mid", "subsample"):
+                    pydefs[x.name] = x
+    f_div4 = project.fn(T + "._div4") if project.has(T + "._div4") else None
+    for name in ("mid", "subsample"):
+        if name in pydefs:
+            fn = pydefs[name]
+            q = T + "." + name
+            func = project.fn(q) if project.has(q) else None
+            alias = [a for a, c in compiled.items() if c == name]
+            ok = None
+            if func is not None and alias:
+                ev = sym.make_evaluator(project, T, [], no_inline=tuple(alias))
+                r = ev.run(func.node)
+                params = [("sym", p) for p in func.params()]
+
+                def leaves(t):
+                    if isinstance(t, tuple) and t and t[0] == "ite":
+                        return leaves(t[2]) + leaves(t[3])
+                    return [t]
+                vals = [v for _pc, v, _n in r.returns for v in leaves(v)] if r.returns else []
+                good = [v for v in vals if v[0] == "call" and v[1][0] == "sym" and v[1][1] in alias and tuple(v[2]) == tuple(params[:len(v[2])]) and not v[3]]
+                ok = bool(vals) and len(good) == len(vals)
+                if vals and not ok:
+                    other = [v for v in vals if v not in good][0]
+                    run.violated(rule, func, fn, "toasty.toast.%s is a Python function standing in for the compiled routine and on some path answers %s instead of handing "
+                                 "its arguments to the compiled %s: tiles subdivided in Python no longer agree with the compiled pixel-grid recursion (and a tile with its "
+                                 "children) for the arcs that take that path" % (name, sym.show(other)[:80], name), kind="compiled-routine-shadowed", construct="toasty.toast." + name)
+                    continue
+            if ok:
+                run.holds(rule, func, fn, "toasty.toast.%s is a pure pass-through to the compiled routine" % name)
+            else:
+                run.undecided(rule, func, fn, "toasty.toast.%s is defined in Python; cannot show that it is the compiled routine" % name, kind="compiled-routine-shadowed",
+                              construct="toasty.toast." + name)
+        elif [b for b in rebinds if b[0] == name]:
+            run.undecided(rule, f_div4, [b for b in rebinds if b[0] == name][0][1], "toasty.toast.%s is rebound at module level" % name, kind="compiled-routine-shadowed",
+                          construct="toasty.toast." + name)
+        elif name in compiled and compiled[name] == name:
+            run.holds(rule, f_div4, None, "toasty.toast.%s is the routine imported from the compiled module" % name)
+        else:
+            run.undecided(rule, f_div4, None, "toasty.toast.%s is not imported from the compiled module" % name, kind="compiled-routine-shadowed", construct="toasty.toast." + name)
